@@ -81,7 +81,9 @@ const repoProfilePath = "profiles/shared.yaml"
 
 // the one shared profile: its content value p shows in every certificate that uses it through a custom extension
 func repoProfileText(p int) []byte {
-	m := map[string]any{"version": 1, "name": "shared",
+	// (the profile also carries a validity with a fixed start: every entity of this model has a validity block of its own, which wins -
+	// also where that block has no start date of its own, as for `s` and `l`)
+	m := map[string]any{"version": 1, "name": "shared", "validity": map[string]any{"from": "2021-02-02", "duration": "8y"},
 		"extensions": []any{map[string]any{"custom": map[string]any{"oid": "1.3.6.1.4.1.99999.2", "raw": fmt.Sprintf("!binary:%s", b64([]byte{byte(p)}))}}}}
 	b, _ := json.MarshalIndent(m, "", "  ")
 	return b
